@@ -74,10 +74,11 @@ Definition holds (o : obj) (f : net_rule) : Prop :=
   | OCache idx => backing idx = Some (RNet f)
   | OSeq 0 n => nth_error (ne_seq ne) n = Some f
   | OSeq 1 n => nth_error (ne_seq (de_net de)) n = Some f
+  | OSeq 2 n => nth_error (ne_seq ne) n = Some f          (* the network engine the web Engine owns: same tables *)
   | OSeq _ _ => False
   end.
 Lemma holds_fun o f f' : holds o f -> holds o f' -> f = f'.
-Proof. destruct o as [idx|[|[|t]] n]; cbn; try tauto; congruence. Qed.
+Proof. destruct o as [idx|[|[|[|t]]] n]; cbn; try tauto; congruence. Qed.
 
 Definition Inv (s : sstate) : Prop :=
   (forall idx r, assoc_idx idx (ss_cache s) = Some r -> backing idx = Some r) /\
@@ -289,14 +290,18 @@ Qed.
 Definition pure_answer (o : op) : answer :=
   match o with
   | QNet q => ANet (match_all hash psl (vnet V) ne q)
+  | QWeb q => AWeb (engine_match_request hash psl (vnet V) ne q)
   | QDns h cn ip tags t =>
     let r := dns_match hash psl (vnet V) (vhost V) de h (new_hostname_request psl h cn ip tags t) in ADns (fst r) (snd r)
   | OpClose => ANone
   end.
 Lemma pure_step o : o <> OpClose -> Pure (step hash psl backing ne de o) (pure_answer o).
 Proof.
-  intro Ho. destruct o as [q|h cn ip tags t|]; [| |congruence]; cbn [step pure_answer].
+  intro Ho. destruct o as [q|q|h cn ip tags t|]; [| | |congruence]; cbn [step pure_answer].
   - eapply pure_bind; [apply pure_match_all; intros n f H; exact H | apply pure_ret].
+  - unfold engine_match_request. eapply pure_bind; [apply pure_match_all; intros n f H; exact H|].
+    destruct (isnil (rq_source_url q)); [apply pure_ret|].
+    eapply pure_bind; [apply pure_match_all; intros n f H; exact H | apply pure_ret].
   - eapply pure_bind; [apply pure_dns_match | apply pure_ret].
 Qed.
 (* once the lists are unreadable, closing again changes nothing *)
@@ -326,7 +331,7 @@ Proof.
   - split; [reflexivity | split; [exact Hs | apply grows_refl]].
   - assert (H : St (fst (step hash psl backing ne de o s)) /\ snd (step hash psl backing ne de o s) = pure_answer o /\
                 grows s (fst (step hash psl backing ne de o s))).
-    { destruct o as [q|h cn ip tags t|]; try (apply pure_step; [discriminate | exact Hs]).
+    { destruct o as [q|q|h cn ip tags t|]; try (apply pure_step; [discriminate | exact Hs]).
       cbn [step pure_answer]. unfold bind. destruct (pure_close_closed s Hs Hr) as [A B].
       destruct (close_storage s) as [s1 u]. cbn [fst snd ret] in *. auto. }
     destruct H as (H1 & H2 & H3). destruct (step hash psl backing ne de o s) as [s1 a]. cbn [fst snd] in *.
